@@ -8,7 +8,7 @@ from .ctx import Machinery
 QUICK = [("mc/MC_MdBlocksQ", "MC_MdBlocksQ_2.cfg"), ("mc/MC_MdBlocksN", "MC_MdBlocksN_2.cfg"), ("mc/MC_MdBlocksD", "MC_MdBlocksD_2.cfg"),
          ("mc/MC_MdBlocksO", "MC_MdBlocksO_3.cfg"), ("mc/MC_MdBlocksT", "MC_MdBlocksT_3.cfg"), ("mc/MC_MdBlocksR", "MC_MdBlocksR_3.cfg"),
          ("mc/MC_MdBlocksH", "MC_MdBlocksH_2.cfg"), ("mc/MC_MdBlocksL", "MC_MdBlocksL_2.cfg"), ("mc/MC_MdBlocksM", "MC_MdBlocksM_3.cfg"),
-         ("mc/MC_MdBlocksK", "MC_MdBlocksK_all.cfg"), ("mc/MC_MdBlocksJ", "MC_MdBlocksJ_all.cfg"), ("mc/MC_MdBlocksG", "MC_MdBlocksG_2.cfg"), ("mc/MC_MdBlocksB", "MC_MdBlocksB_all.cfg"), ("mc/MC_MdBlocksP", "MC_MdBlocksP_all.cfg"), ("mc/MC_MdBlocksW", "MC_MdBlocksW_all.cfg"), ("mc/MC_MdBlocksX", "MC_MdBlocksX_all.cfg")]
+         ("mc/MC_MdBlocksK", "MC_MdBlocksK_all.cfg"), ("mc/MC_MdBlocksJ", "MC_MdBlocksJ_all.cfg"), ("mc/MC_MdBlocksG", "MC_MdBlocksG_2.cfg"), ("mc/MC_MdBlocksB", "MC_MdBlocksB_all.cfg"), ("mc/MC_MdBlocksP", "MC_MdBlocksP_all.cfg"), ("mc/MC_MdBlocksW", "MC_MdBlocksW_all.cfg"), ("mc/MC_MdBlocksX", "MC_MdBlocksX_all.cfg"), ("mc/MC_MdBlocksY", "MC_MdBlocksY_all.cfg")]
 THOROUGH = [("mc/MC_MdBlocksF", "MC_MdBlocksF_2.cfg"), ("mc/MC_MdBlocksQ", "MC_MdBlocksQ_3v.cfg"), ("mc/MC_MdBlocksN", "MC_MdBlocksN_3v.cfg"),
             ("mc/MC_MdBlocksQ", "MC_MdBlocksQ_2.cfg"), ("mc/MC_MdBlocksN", "MC_MdBlocksN_2.cfg"), ("mc/MC_MdBlocksD", "MC_MdBlocksD_2.cfg"),
             ("mc/MC_MdBlocksD", "MC_MdBlocksD_3v.cfg"), ("mc/MC_MdBlocksO", "MC_MdBlocksO_3.cfg"), ("mc/MC_MdBlocksT", "MC_MdBlocksT_3.cfg"),
@@ -17,7 +17,7 @@ THOROUGH = [("mc/MC_MdBlocksF", "MC_MdBlocksF_2.cfg"), ("mc/MC_MdBlocksQ", "MC_M
             ("mc/MC_MdBlocksM", "MC_MdBlocksM_4.cfg"), ("mc/MC_MdBlocksK", "MC_MdBlocksK_all.cfg"), ("mc/MC_MdBlocksJ", "MC_MdBlocksJ_all.cfg"),
             ("mc/MC_MdBlocksG", "MC_MdBlocksG_2.cfg"), ("mc/MC_MdBlocksG", "MC_MdBlocksG_3.cfg"), ("mc/MC_MdBlocksB", "MC_MdBlocksB_all.cfg"),
             ("mc/MC_MdBlocksP", "MC_MdBlocksP_all.cfg"), ("mc/MC_MdBlocksW", "MC_MdBlocksW_all.cfg"),
-            ("mc/MC_MdBlocksX", "MC_MdBlocksX_all.cfg")]
+            ("mc/MC_MdBlocksX", "MC_MdBlocksX_all.cfg"), ("mc/MC_MdBlocksY", "MC_MdBlocksY_all.cfg")]
 
 
 def model_docs(ctx, tier):
